@@ -10,8 +10,8 @@
 #include "mcx/arena.h"
 using namespace Avoid; using namespace std;
 static mcx::Ctx ctx;
-struct Cfg { int opt, reg; int second; int obstacle; int heap; };   // second: 0 nothing, 1 a transaction that moves a terminal, 2 a SECOND full rerouting in the next transaction
-static string cfg_str(const Cfg &c) { return mcx::fmt("improve=%s register=%s second_transaction=%d obstacle=%d heap=%s", c.opt == 0 ? "off" : c.opt == 1 ? "moving" : "moving+adding+deleting", c.reg == 0 ? "none" : c.reg == 1 ? "by junction" : "by terminal list", c.second, c.obstacle, c.heap == 0 ? "system" : c.heap == 1 ? "ascending" : "descending"); }
+struct Cfg { int opt, reg; int second; int obstacle; int heap; int mixed = 0; };   // second: 0 nothing, 1 a transaction that moves a terminal, 2 a SECOND full rerouting in the next transaction, 3 all but two terminal connectors deleted and the junction removed with removeJunctionAndMergeConnectors()   // mixed: every other connector is created junction -> terminal instead of terminal -> junction
+static string cfg_str(const Cfg &c) { return mcx::fmt("improve=%s register=%s second_transaction=%d obstacle=%d heap=%s", c.opt == 0 ? "off" : c.opt == 1 ? "moving" : "moving+adding+deleting", c.reg == 0 ? "none" : c.reg == 1 ? "by junction" : "by terminal list", c.second, c.obstacle, c.heap == 0 ? "system" : c.heap == 1 ? "ascending" : "descending") + (c.mixed ? " connectors in mixed orientation" : ""); }
 
 static void run(const vector<pair<int, int>> &shapePos, pair<int, int> jpos, const Cfg &c) {
     string desc = "terminals:"; for (auto &p : shapePos) desc += mcx::fmt(" (%d,%d)", p.first, p.second); desc += mcx::fmt(" junction cell (%d,%d) ", jpos.first, jpos.second) + cfg_str(c);
@@ -30,8 +30,8 @@ static void run(const vector<pair<int, int>> &shapePos, pair<int, int> jpos, con
         for (auto &p : shapePos) { Rectangle r(Point(p.first * 20 - 4, p.second * 20 - 4), Point(p.first * 20 + 4, p.second * 20 + 4)); ShapeRef *s = new ShapeRef(router, r); new ShapeConnectionPin(s, 1, ATTACH_POS_RIGHT, ATTACH_POS_CENTRE, true, 2, ConnDirRight); new ShapeConnectionPin(s, 1, ATTACH_POS_LEFT, ATTACH_POS_CENTRE, true, 2, ConnDirLeft); shapes.push_back(s); }
         if (c.obstacle) { Rectangle r(Point(jpos.first * 20 + 6, jpos.second * 20 + 26), Point(jpos.first * 20 + 14, jpos.second * 20 + 34)); new ShapeRef(router, r); }
         set<unsigned> termShapes; for (auto s : shapes) termShapes.insert(s->id());
-        JunctionRef *j = nullptr;
-        if (c.reg != 2) { j = new JunctionRef(router, Point(jpos.first * 20 + 10, jpos.second * 20 + 10)); for (auto s : shapes) { ConnRef *cn = new ConnRef(router); cn->setSourceEndpoint(ConnEnd(s, 1)); cn->setDestEndpoint(ConnEnd(j)); } }
+        JunctionRef *j = nullptr; vector<ConnRef *> starConns;
+        if (c.reg != 2) { j = new JunctionRef(router, Point(jpos.first * 20 + 10, jpos.second * 20 + 10)); size_t qi = 0; for (auto s : shapes) { ConnRef *cn = new ConnRef(router); if (c.mixed && (qi++ % 2)) { cn->setSourceEndpoint(ConnEnd(j)); cn->setDestEndpoint(ConnEnd(s, 1)); } else { cn->setSourceEndpoint(ConnEnd(s, 1)); cn->setDestEndpoint(ConnEnd(j)); } starConns.push_back(cn); } }
         router->processTransaction(); nTrans++;
         if (c.reg == 1) { router->hyperedgeRerouter()->registerHyperedgeForRerouting(j); router->processTransaction(); nTrans++; }
         if (c.reg == 2) { ConnEndList terms; for (auto s : shapes) terms.push_back(ConnEnd(s, 1)); router->hyperedgeRerouter()->registerHyperedgeForRerouting(terms); router->processTransaction(); nTrans++; }
@@ -63,6 +63,12 @@ static void run(const vector<pair<int, int>> &shapePos, pair<int, int> jpos, con
             static const int D[4][2] = {{1, 0}, {0, 1}, {-1, 0}, {0, -1}}; int dx = 0, dy = 0;
             for (auto &d : D) { bool occ = false; for (auto &p : shapePos) if (p.first == shapePos[0].first + d[0] && p.second == shapePos[0].second + d[1]) occ = true; if (!occ) { dx = d[0] * 20; dy = d[1] * 20; break; } }
             router->moveShape(shapes[0], dx, dy); router->processTransaction(); nTrans++; }
+        if (c.second == 3 && j && c.reg == 0 && c.opt == 0) {   // (without rerouting/improvement the star's own junction and connectors are still the live ones)
+            for (size_t q = 2; q < starConns.size(); q++) router->deleteConnector(starConns[q]);
+            router->processTransaction(); nTrans++;
+            ConnRef *merged = j->removeJunctionAndMergeConnectors(); router->processTransaction(); nTrans++;
+            if (!merged) why = "removeJunctionAndMergeConnectors refused a junction with exactly two connectors";
+            termShapes.clear(); termShapes.insert(shapes[0]->id()); termShapes.insert(shapes[1]->id()); }
         nStates++;
         // ---- the hyperedge must be a tree over the same terminals
         map<void *, vector<void *>> adj; set<unsigned> leafShapes; int nconn = 0; set<void *> juncs;
@@ -136,6 +142,8 @@ int main(int argc, char **argv) {
     vector<Cfg> base; for (int opt = 0; opt < 3; opt++) for (int reg = 0; reg < 3; reg++) for (int sec = 0; sec < 3; sec++) for (int heap = 1; heap <= 2; heap++) { if (sec == 2 && reg == 0) continue; base.push_back({opt, reg, sec, 0, heap}); }
     vector<Cfg> small; for (int reg = 0; reg < 3; reg++) for (int heap = 1; heap <= 2; heap++) small.push_back({2, reg, 1, 0, heap});
     phase(3, 2, base, "all options, 3x3 grid"); phase(3, 3, small, "improve all, second transaction"); phase(4, 2, base, "all options, 3x3 grid");
+    { vector<Cfg> mg; for (int mixed = 0; mixed < 2; mixed++) for (int heap = 1; heap <= 2; heap++) { Cfg c{0, 0, 3, 0, heap}; c.mixed = mixed; mg.push_back(c); Cfg d{0, 0, 1, 0, heap}; d.mixed = 1; mg.push_back(d); Cfg e{2, 1, 0, 0, heap}; e.mixed = 1; mg.push_back(e); }
+      phase(3, 2, mg, "mixed connector orientation; delete all but two connectors, then removeJunctionAndMergeConnectors"); phase(4, 2, mg, "mixed connector orientation; delete all but two connectors, then removeJunctionAndMergeConnectors"); }
     if (T) { phase(3, 3, base, "all options"); vector<Cfg> ob; for (auto c : base) { c.obstacle = 1; if (c.opt != 1) ob.push_back(c); } phase(3, 2, ob, "with obstacle"); phase(4, 2, ob, "with obstacle"); phase(4, 3, base, "all options"); phase(5, 2, base, "all options, 3x3 grid"); phase(6, 2, base, "all options, 3x3 grid"); phase(5, 3, small, "improve all, second transaction, 4x4 grid"); }
     return ctx.finish();
 }
